@@ -62,5 +62,20 @@ def main():
     return report.finish(level='proof')
 
 
+def _reap_children():
+    """Worker processes that a (broken) implementation left behind must not keep the check from ending: interpreter exit joins
+    every non-daemon child."""
+    import multiprocessing
+    for p in multiprocessing.active_children():
+        try:
+            p.kill()
+            p.join(2)
+        except Exception:   # noqa
+            pass
+
+
 if __name__ == '__main__':
-    sys.exit(main())
+    code = main()
+    sys.stdout.flush()
+    _reap_children()
+    sys.exit(code)
